@@ -65,6 +65,10 @@ CLAIMED.update({
             "One reward definition feeds available-=, claimed+= (both arms) and the payout to the sender; the checked subtraction precedes the epoch save; "
             "cursor saved on every success path, claimable filters are strict (id > last claimed / first bonded), never-bonded cleared; reply aggregates the "
             "expiring epoch's available into the new epoch's total and available, empties and saves the expiring epoch; single writers.", "§4 C09"),
+    "C10": ("guard dominance + sub-message order/reply discipline + condition dominance + ordering-domain walk of the aggregation threshold",
+            "ForwardFees only for the distributor; four self-addressed sub-messages in order collect/collect/aggregate/aggregate with only the last "
+            "replying on success; take-rate fee = floor(balance * take_rate) sent and recorded only under active/rate!=0/dao-set/fee!=0; epoch total = "
+            "available = amount sent to the distributor; swaps only above 1000 after successful route+simulation, never for the distribution asset.", "§4 C10"),
     "C11": ("guard dominance + closure-resolved provenance + variant-sliced reachability + forward message flow",
             "validate_funds_sent success dominates position writes and its validated amount is the recorded amount; the helper's Ok return "
             "is reachable only through paid==amount (native) or an attached TransferFrom(sender->contract, amount) with allowance>=amount (cw20); "
